@@ -15,6 +15,7 @@ from dst.world import decoder_rig, messages, reader_rig
 
 PROP = "C15"
 LEVEL = "exploration"
+TERMINATION_IS_PROPERTY = True  # a wall-clock hang found by the watchdog is a violation here, not only a harness error
 TECHNIQUE = "deterministic simulation of call histories on a sequential object: seeded priming history + damaged payload (truncate/mutate/junk/unbalanced-parenthesis faults) into the real AutoDecoder via both entry points; oracle = dict-or-None, no escaping exception, deterministic sys.monitoring step budget"
 DESIGN_REF = "DESIGN.md section 4.9"
 LEVEL_TEXT = (
@@ -37,7 +38,7 @@ ASSUMPTIONS = [
     "step budget 7 x (50000 + 2000 x len(input)) PY_START+JUMP events bounds time; allocation by Python code is bounded by the same count (a single huge C-level allocation in one step would be missed)",
     "priming uses genuine messages through decode_message_payload only; a priming call that itself raises makes the run void",
 ]
-MUST_FIRE = {"quick": ["remembered_None", "remembered_Kamstrup_frame", "remembered_P1", "remembered_Kamstrup_notification_body", "entry_message_p1", "entry_message_hdlc", "kind_unbalanced_paren", "result_dict", "result_none"], "thorough": ["remembered_None", "remembered_Kamstrup_frame", "remembered_P1", "remembered_Kamstrup_notification_body", "entry_message_p1", "entry_message_hdlc", "kind_unbalanced_paren", "result_dict", "result_none"]}
+MUST_FIRE = {"quick": ["remembered_None", "remembered_Kamstrup_frame", "remembered_P1", "remembered_Kamstrup_notification_body", "long_priming_history", "entry_message_p1", "entry_message_hdlc", "kind_unbalanced_paren", "result_dict", "result_none"], "thorough": ["remembered_None", "remembered_Kamstrup_frame", "remembered_P1", "remembered_Kamstrup_notification_body", "long_priming_history", "entry_message_p1", "entry_message_hdlc", "kind_unbalanced_paren", "result_dict", "result_none"]}
 
 ENTRIES = ["payload", "payload", "payload", "message_hdlc", "message_dlms", "message_p1"]
 
@@ -50,10 +51,18 @@ def gen(rng, tier, index):
     entry = rng.choice(ENTRIES)
     if entry == "message_p1" and (b"!" in data or b"/" in data or not data):
         entry = "payload"
-    yield {"prime": [table[remembered]] if remembered else [], "remembered": remembered, "entry": entry, "data": data.hex(), "kind": desc["k"], "src": desc.get("src")}
+    prime = [table[remembered]] if remembered else []
+    if rng.random() < 0.35:
+        # a longer history: the remembered index has moved around the table (and wrapped) before
+        pool = messages.corpus()
+        prime = [rng.choice(pool)["data"].hex() for _ in range(rng.randint(1, 3))] + prime
+    sc = {"prime": prime, "remembered": remembered, "entry": entry, "data": data.hex(), "kind": desc["k"], "src": desc.get("src")}
+    if entry == "message_p1" and rng.random() < 0.5:
+        sc["ident"] = messages.weird_ident(rng).hex()
+    yield sc
 
 
-def _call(dec, entry, data):
+def _call(dec, entry, data, ident=None):
     if entry == "payload":
         return dec.decode_message_payload(data), True
     if entry == "message_hdlc":
@@ -61,7 +70,7 @@ def _call(dec, entry, data):
     elif entry == "message_dlms":
         msg = decoder_rig.as_dlms(data)
     else:
-        msg = decoder_rig.as_readout(data)
+        msg = decoder_rig.as_readout(data, ident)
     if msg is None:
         return dec.decode_message_payload(data), False
     return dec.decode_message(msg), True
@@ -78,7 +87,10 @@ def execute(sc):
             dec.decode_message_payload(bytes.fromhex(p))
     except Exception:  # noqa: BLE001
         void = True
-    remembered = dec.previous_success_decoder
+    try:
+        remembered = dec.previous_success_decoder  # probe only (C12 judges this accessor)
+    except Exception:  # noqa: BLE001
+        remembered = "<accessor raised>"
     viol = []
     budget = 7 * (50_000 + 2_000 * len(data))
     steps = 0
@@ -88,7 +100,7 @@ def execute(sc):
         try:
             with stepbudget.StepBudget(budget) as sb:
                 try:
-                    result, as_asked = _call(dec, sc["entry"], data)
+                    result, as_asked = _call(dec, sc["entry"], data, bytes.fromhex(sc["ident"]) if sc.get("ident") else None)
                     if not as_asked:
                         used_entry = "payload"
                     if result is None:
@@ -115,7 +127,7 @@ def execute(sc):
         "nontrivial": not void and sc.get("kind") != "genuine",
         "key": prng.digest([remembered, used_entry, sc["data"]]),
         "faults": {f"kind_{sc.get('kind')}": 1},
-        "probes": {f"remembered_{remembered}": 1, f"entry_{used_entry}": 1, f"kind_{sc.get('kind')}": 1, f"result_{outcome}": 1, "steps_over_10pct_of_budget": 1 if steps > budget // 10 else 0},
+        "probes": {f"remembered_{remembered}": 1, f"entry_{used_entry}": 1, f"kind_{sc.get('kind')}": 1, f"result_{outcome}": 1, "steps_over_10pct_of_budget": 1 if steps > budget // 10 else 0, "long_priming_history": 1 if len(sc["prime"]) > 1 else 0, "readout_with_generated_ident": 1 if sc.get("ident") else 0},
         "states": {(remembered, used_entry, sc.get("kind"), outcome)},
         "sim_s": 0.0,
         "summary": {"remembered": remembered, "entry": used_entry, "kind": sc.get("kind"), "source": sc.get("src"), "input_octets": len(data), "input_head_hex": data[:48].hex(), "outcome": outcome, "interpreter_events": steps, "budget": budget},
@@ -129,6 +141,11 @@ def summarise(sc):
 def candidates(sc):
     if sc["prime"]:
         yield dict(copy.deepcopy(sc), prime=[], remembered=None)
+    for red in shrink.list_reductions(sc["prime"]):
+        if red:
+            yield dict(copy.deepcopy(sc), prime=red)
+    if sc.get("ident"):
+        yield dict(copy.deepcopy(sc), ident=None)
     if sc["entry"] != "payload":
         yield dict(copy.deepcopy(sc), entry="payload")
     data = bytes.fromhex(sc["data"])
